@@ -755,8 +755,14 @@ Qed.
 Lemma entry_after_cases entry add r A T :
   entry_after entry add r = Some (A, T) -> (r = Enrol A T /\ add = Added) \/ entry = Some (A, T).
 Proof.
-  unfold entry_after. destruct r as [a t|c]; [|auto]. destruct add; auto.
+  unfold entry_after. destruct r as [a t|c]; [|intros H; discriminate H]. destruct add; auto.
   intros H. inversion H. subst. auto.
+Qed.
+
+Lemma eviction_no_announce entry r e : In e (eviction entry r) -> announces e = false.
+Proof.
+  unfold eviction. destruct r as [a t|k]; [intros []|]. destruct entry as [[a t]|]; [|intros []].
+  intros [<-|[]]. reflexivity.
 Qed.
 
 (* invariant: a registry entry (A, T) is backed by an admissible handshake of the current connection period *)
@@ -788,16 +794,21 @@ Theorem node_announcements c evs ev e A T :
 Proof.
   intros I. rewrite node_run_snoc.
   destruct ev as [o wf sc hn cl|o wf sc cl|]; cbn [node_step snd fst] in *.
-  - split.
+  - assert (announces e = true ->
+            In e (handle_connect_req hn (fst (add_outcome (node_run c evs) cl)) (res (handle c o wf sc)))) as I0.
+    { intros An. apply in_app_or in I. destruct I as [I|I]; [exact I|].
+      rewrite (eviction_no_announce _ _ _ I) in An. discriminate An. }
+    clear I. split.
     + intros Q.
       assert (announces e = true) as An by (destruct Q as [-> | ->]; reflexivity).
+      pose proof (I0 An) as I.
       destruct (inbound_announce_only_enrolled _ _ _ _ I An) as (a & t & R & Ee).
       assert (a = A /\ t = T) as [-> ->] by (destruct Q as [-> | ->]; destruct Ee as [Ee|Ee]; inversion Ee; auto).
       rewrite R in I. unfold add_outcome in I.
       destruct (node_run c evs) as [[a0 t0]|]; cbn in I.
       * destruct I as [I|[]]. subst e. destruct Q as [Q|Q]; discriminate Q.
       * split; [|reflexivity]. cbn. apply handle_enrol_iff. exact R.
-    + intros ->. exfalso.
+    + intros ->. exfalso. pose proof (I0 eq_refl) as I.
       destruct (inbound_announce_only_enrolled _ _ _ _ I eq_refl) as (a & t & _ & [Ee|Ee]); discriminate Ee.
   - destruct (node_run c evs) as [[a0 t0]|] eqn:S; cbn [snd fst] in *.
     + destruct I as [I|[]]. subst e. split.
@@ -819,4 +830,38 @@ Proof.
         unfold add_outcome in *. destruct cl; cbn [fst snd known_after] in *; [discriminate K|].
         repeat split; [cbn; apply handshake_enrol_iff; exact R|]. rewrite R. reflexivity.
   - destruct I.
+Qed.
+
+(* A refused inbound handshake evicts the remote: whatever entry an earlier handshake (on this or on
+   another transport connection) had created is gone afterwards, all connections of the peer are closed,
+   the notifier is told Disconnected for the dropped entry, and nothing is announced. *)
+Theorem refusal_evicts c evs o wf sc hn cl :
+  (forall A T, ~ resp_ok c o wf sc A T) ->
+  let ev := EvInbound o wf sc hn cl in
+  let eff := snd (node_step c (node_run c evs) ev) in
+  node_run c (evs ++ [ev]) = None /\
+  In EClosePeer eff /\
+  (forall a t, node_run c evs = Some (a, t) -> In (ENotifyGone a t) eff) /\
+  (forall e, In e eff -> announces e = false).
+Proof.
+  intros N ev eff. subst ev eff. rewrite node_run_snoc. cbn [node_step fst snd].
+  destruct (refuse_responder c o wf sc N) as (k & R & _). rewrite R.
+  repeat split.
+  - apply in_or_app. left. right. left. reflexivity.
+  - intros a t S. rewrite S. apply in_or_app. right. left. reflexivity.
+  - intros e I. apply in_app_or in I. destruct I as [I|I].
+    + destruct (inbound_refuse_effects hn (fst (add_outcome (node_run c evs) cl)) k) as (_ & _ & F).
+      exact (forallb_not_in _ _ _ F I).
+    + exact (eviction_no_announce _ _ _ I).
+Qed.
+
+(* the same for Connect when it does run a handshake (no entry before): nothing is registered afterwards *)
+Theorem refusal_outbound_leaves_nothing c evs o wf sc cl :
+  node_run c evs = None -> (forall A T, ~ init_ok c o wf sc A T) ->
+  let ev := EvConnect o wf sc cl in
+  node_run c (evs ++ [ev]) = None /\ In EClosePeer (snd (node_step c (node_run c evs) ev)).
+Proof.
+  intros S N ev. subst ev. rewrite node_run_snoc, S. cbn [node_step fst snd].
+  destruct (refuse_initiator c o wf sc N) as (k & R & _). rewrite R. split; [reflexivity|].
+  left. reflexivity.
 Qed.
